@@ -70,7 +70,8 @@ def run(ck):
     d = core.scratch("c33-")
     dummy = os.path.join(d, "empty.ndjson")
     tracepar.write_ndjson(dummy, [{"asm": 0, "variant": 0}])
-    model(ck, dummy)
+    if not os.environ.get("VERIF_SKIP_MODEL"):   # development aid (sensitivity runs): the model part does not depend on /repo
+        model(ck, dummy)
     stacks, nets, ops, msgs, per = (6, 1, 40, 40, 3) if quick else (40, 6, 150, 120, 5)
     binary = ck.binary("nettrace")
     traces, outs = [], []
